@@ -578,35 +578,46 @@ def climbZero : List Nat → Nat → List Nat × Nat
   | [], j => ([], j)
   | c :: rp, j => if j = 0 then climbZero rp c else (c :: rp, j)
 
+/-- left side of `pvRemoveRange` inside the common parent `inner items cs` (TreeSet.h:1394-1431): the leaf slot of
+    `begin`, the climb over leading zeros, then — unless the climb ends in the common parent — the predecessor of
+    `begin` replaces the separator `a` and child `a` keeps only what precedes it.
+    Result: new items, new children, first index of the common parent that goes away, path of `rebNode1`. -/
+def rangeLeft (items : List α) (cs : List (Node α)) (p1 : List Nat) (i1 : Nat) :
+    List α × List (Node α) × Nat × Option (List Nat) :=
+  match (climbZero (normLeaf (inner items cs) ⟨p1, i1⟩).path.reverse (normLeaf (inner items cs) ⟨p1, i1⟩).idx).1.reverse with
+  | [] => (items, cs, (climbZero (normLeaf (inner items cs) ⟨p1, i1⟩).path.reverse (normLeaf (inner items cs) ⟨p1, i1⟩).idx).2, none)
+  | a :: q => match cs[a]? with
+    | some ch =>
+      (match truncRight ch q ((climbZero (normLeaf (inner items cs) ⟨p1, i1⟩).path.reverse
+          (normLeaf (inner items cs) ⟨p1, i1⟩).idx).2 - 1) with
+       | (ch', some x) => (items.set a x, cs.set a ch', a + 1, some (a :: q))
+       | (_, none) => (items, cs, a, none))
+    | none => (items, cs, a, none)
+
+/-- right side (TreeSet.h:1432-1454): the subtree holding `prev(end)` keeps only what follows it.
+    Result: new children, first index of the common parent that stays. -/
+def rangeRight (cs : List (Node α)) (p2 : List Nat) (i2 : Nat) : List (Node α) × Nat :=
+  match p2 with
+  | [] => (cs, i2 + 1)
+  | b :: q => match cs[b]? with
+    | some ch => (cs.set b (truncLeft ch q i2), b)
+    | none => (cs, b)
+
 /-- `pvRemoveRange` inside the common parent `comNode = inner items cs` (TreeSet.h:1386-1464).
     `p1 i1` = begin, `p2 i2` = prev(end), both relative to `comNode`, with different first steps (or empty paths).
-    Result: the new `comNode`, the path of `rebNode1` (if it is not `comNode`), the path of `resNode`. -/
+    Result: the new `comNode` (`for (i = comIndex2; i > comIndex1; --i) pvDestroyInternal(comNode, i - 1, false, …)`),
+    the path of `rebNode1` (if it is not `comNode`), the path of `resNode`. -/
 def removeRangeCom (items : List α) (cs : List (Node α)) (p1 : List Nat) (i1 : Nat) (p2 : List Nat) (i2 : Nat) :
     Node α × Option (List Nat) × List Nat :=
-  -- leaf slot of `begin` and the climb over leading zeros
-  match climbZero (normLeaf (inner items cs) ⟨p1, i1⟩).path.reverse (normLeaf (inner items cs) ⟨p1, i1⟩).idx with
-  | (rq, j1) =>
-    -- left side: `a'` = first item/child index of comNode that goes away
-    match (match rq.reverse with
-        | [] => (items, cs, j1, (none : Option (List Nat)))
-        | a :: q => (match cs[a]? with
-          | some ch => (match truncRight ch q (j1 - 1) with
-            | (ch', some x) => (items.set a x, cs.set a ch', a + 1, some (a :: q))
-            | (_, none) => (items, cs, a, none))
-          | none => (items, cs, a, none))) with
-    | (items1, cs1, a', reb) =>
-      -- right side: `b'` = first item/child index of comNode that stays
-      match (match p2 with
-          | [] => (cs1, i2 + 1)
-          | b :: q => (match cs1[b]? with
-            | some ch => (cs1.set b (truncLeft ch q i2), b)
-            | none => (cs1, b))) with
-      | (cs2, b') =>
-        (inner (items1.take a' ++ items1.drop b') (cs2.take a' ++ cs2.drop b'),
-         reb,
-         a' :: (match cs2[b']? with
-           | some ch => leftPath ch
-           | none => []))
+  (inner ((rangeLeft items cs p1 i1).1.take (rangeLeft items cs p1 i1).2.2.1 ++
+            (rangeLeft items cs p1 i1).1.drop (rangeRight (rangeLeft items cs p1 i1).2.1 p2 i2).2)
+         ((rangeRight (rangeLeft items cs p1 i1).2.1 p2 i2).1.take (rangeLeft items cs p1 i1).2.2.1 ++
+            (rangeRight (rangeLeft items cs p1 i1).2.1 p2 i2).1.drop (rangeRight (rangeLeft items cs p1 i1).2.1 p2 i2).2),
+   (rangeLeft items cs p1 i1).2.2.2,
+   (rangeLeft items cs p1 i1).2.2.1 ::
+     (match (rangeRight (rangeLeft items cs p1 i1).2.1 p2 i2).1[(rangeRight (rangeLeft items cs p1 i1).2.1 p2 i2).2]? with
+      | some ch => leftPath ch
+      | none => []))
 
 /-- descend along the common prefix of the two paths (`pvGetCommonParent`) and apply `removeRangeCom` there;
     the paths in the result are relative to `n` -/
